@@ -586,7 +586,15 @@ func (g *Gen) Restart(depthA, depthB int) (Cfg, string, []string, []string) {
 	}
 	g.C = cB
 	g.alpha = append(g.alpha, cB.HostIP, cB.RouterIP)
-	g.sv = NewServerFile(cB, file)
+	var pre []net.HardwareAddr
+	var preToks []string
+	for i := range g.macs { // MACs captured in the session before the handler is constructed on the file
+		if g.R.Chance(30) {
+			pre = append(pre, g.macs[i])
+			preToks = append(preToks, "P,"+hxmac(g.macs[i]))
+		}
+	}
+	g.sv = NewServerFile(cB, file, pre...)
 	g.sv.Shared = make([]byte, 1514)
 	defer g.sv.Close()
 	if expiry {
@@ -621,7 +629,7 @@ func (g *Gen) Restart(depthA, depthB int) (Cfg, string, []string, []string) {
 			return g.discover(id, true, nil)
 		}, func() string { return g.selectOffer(id) })
 	}
-	opsB := g.play(depthB)
+	opsB := append(preToks, g.play(depthB)...)
 	return cB, what, opsA, opsB
 }
 
